@@ -2174,6 +2174,11 @@ def suite_deadvalues(exe, tier, seed):
             "samples": samples, "violations": viol}
 
 
+def suite_values_random(exe, tier, seed):
+    import e2e_degrees
+    return e2e_degrees.suite_values_random(exe, tier, seed, run_cli)
+
+
 def suite_degrees(exe, tier, seed):
     import e2e_degrees
     return e2e_degrees.suite(exe, tier, seed, run_cli)
@@ -2186,7 +2191,7 @@ def main():
     except Exception as e:
         print(json.dumps({"error": str(e)}))
         return
-    r = {"tuples": suite_tuples, "output": suite_output, "values": suite_values, "curves": suite_curves, "includes": suite_includes, "totality": suite_totality, "positions": suite_positions, "sigassign": suite_sigassign, "scopes": suite_scopes, "determinism": suite_determinism, "failures": suite_failures, "deadvalues": suite_deadvalues, "degrees": suite_degrees}[suite](exe, tier, seed)
+    r = {"tuples": suite_tuples, "output": suite_output, "values": suite_values, "curves": suite_curves, "includes": suite_includes, "totality": suite_totality, "positions": suite_positions, "sigassign": suite_sigassign, "scopes": suite_scopes, "determinism": suite_determinism, "failures": suite_failures, "deadvalues": suite_deadvalues, "degrees": suite_degrees, "values-random": suite_values_random}[suite](exe, tier, seed)
     print(json.dumps(r))
 
 if __name__ == "__main__":
